@@ -9,7 +9,7 @@ from .absint import Raised, Unsupported, BOOL, SIGNS, _norm
 
 FORCED = frozenset(['len', 'range', 'isinstance', 'getattr', 'str', 'repr', 'float', 'int', 'bool', 'abs', 'dict',
                     'list', 'tuple', 'type', 'sorted', 'max', 'min', 'format', 'enumerate', 'zip', 'reversed', 'set',
-                    'frozenset'])
+                    'frozenset', 'dict.fromkeys'])
 LAZY = frozenset(['str', 'repr', 'format', 'float', 'isinstance', 'Decimal', 'decimal.Decimal'])
 POS = frozenset([1])
 NONNEG = frozenset([0, 1])
@@ -131,6 +131,30 @@ def call_ext(I, st, f, args, kw, frame, node):
         from .exprs import seq_elements, truth_value
         want = (name == 'any')
         out = []
+        if type(args[0]).__name__ == 'GenV':
+            # any(elt for target in iter [if cond])  ==  for target in iter: if cond and elt: return True / return False
+            g = args[0]
+            gen = g.node.generators[0]
+            if len(g.node.generators) != 1:
+                raise Unsupported('nested generator expression')
+            test = g.node.elt if want else ast.UnaryOp(op=ast.Not(), operand=g.node.elt)
+            for c in reversed(gen.ifs):
+                test = ast.BoolOp(op=ast.And(), values=[c, test]) if want else ast.BoolOp(op=ast.And(), values=[c, test])
+            loop = ast.For(target=gen.target, iter=gen.iter,
+                           body=[ast.If(test=test, body=[ast.Return(value=ast.Constant(value=want))], orelse=[])], orelse=[])
+            tail = ast.Return(value=ast.Constant(value=not want))
+            for n2 in (loop, tail):
+                ast.copy_location(n2, g.node)
+                ast.fix_missing_locations(n2)
+            res = []
+            for (s2, e2, oc) in I.block(st, dict(g.env), [loop, tail], g.frame):
+                if oc is not None and oc[0] == 'ret':
+                    res.append((s2, oc[1]))
+                elif oc is not None and oc[0] == 'raise':
+                    res.append((s2, oc[1]))
+                else:
+                    res.append((s2, not want))
+            return res
         for (s0, seq) in I.force(st, args[0]):
             if isinstance(seq, (Opaque, SStr)) or seq is NONE:
                 out.extend(I.decide(s0, (name, vkey(seq)), BOOL, frozenset([True])))
@@ -394,6 +418,15 @@ def _call_builtin(I, st, f, name, args, kw, frame, node, where):
             items.append(('kv', Str(k), v))
         st.maps[oid] = tuple(items)
         return [(st, Obj(oid))]
+    if name in ('dict.fromkeys', 'OrderedDict.fromkeys') and args:
+        from .exprs import seq_elements
+        elems = seq_elements(I, st, args[0])
+        if not any(isinstance(x, Star) for x in elems):
+            oid = st.new_oid('dict', 'fromkeys@%s' % frame.fn.name)
+            val = args[1] if len(args) > 1 else NONE
+            st.maps[oid] = tuple(('kv', k, val) for k in elems)
+            st.flags.add(('fresh', oid))
+            return [(st, Obj(oid))]
     if name in ('OrderedDict', 'collections.OrderedDict') or name.endswith('.OrderedDict'):
         oid = st.new_oid('dict', 'odict@%s' % frame.fn.name)
         st.maps[oid] = ()
@@ -419,6 +452,9 @@ def _call_builtin(I, st, f, name, args, kw, frame, node, where):
             seqs = [seq_elements(I, st, a) for a in args[:1 if name in ('enumerate', 'reversed', 'set', 'frozenset') else None]]
         except Unsupported:
             seqs = None
+        if seqs is not None and name == 'enumerate' and len(seqs[0]) == 1 and isinstance(seqs[0][0], Star) and seqs[0][0].cls != '@num':
+            base = seqs[0][0]
+            return [(st, IterV([Star(base.tag, '@enum:%s' % (base.cls or ''), base.nonempty)], 'enumerate'))]
         if seqs is not None and not any(isinstance(x, Star) or type(x).__name__ == 'Opt' for sq in seqs for x in sq):
             if name == 'enumerate':
                 start = 0
